@@ -3,6 +3,8 @@
 package stateproof
 
 import (
+	"math/bits"
+
 	vr "github.com/algorand/go-algorand/internal/verifrt"
 )
 
@@ -14,51 +16,118 @@ import (
 //	y = sw^2 + 2^(d+2)*sw + 2^(2d)      x = 3*2^b*(sw^2 - 2^(2d))      w = d*(T-1)
 //	n*(x + w*y) >= (strengthTarget*T + n*P)*y
 //
-// stated here in exact integers (vr.Z), multiplied out, no division.
-
-// verifC38Ineq: the documented inequality for a CONCRETE d.
-func verifC38Ineq(sw, lnP, n, target uint64, d int) bool {
-	s := vr.ZU(sw)
-	s2 := s.Mul(s)
-	p2d := vr.ZU(1).Shl(2 * d)
-	y := s2.Add(s.Shl(d + 2)).Add(p2d)
-	x := s2.Sub(p2d).Mul(vr.ZU(3 << precisionBits))
-	w := vr.ZU(uint64(d) * (ln2IntApproximation - 1))
-	lhs := vr.ZU(n).Mul(x.Add(w.Mul(y)))
-	rhs := vr.ZU(target).Mul(vr.ZU(ln2IntApproximation)).Add(vr.ZU(n).Mul(vr.ZU(lnP))).Mul(y)
-	return lhs.Ge(rhs)
-}
-
-// VerifC38Small: the REAL code, math/big included, on small operands
-// (signedWeight < 2^8, lnProvenWeight < 2^16, strengthTarget < 2^8, so every
-// big.Int stays within one machine word). d is case-split (8 values).
+// is stated in exact integers (vr.Z), multiplied out, no division, by
+// verifC38SubExpr / verifC38Lhs / verifC38Rhs / verifC38Num / verifC38Den
+// (zz_verif_c38big.go). Layers:
 //
-//verif:harness prop=C38 reach=done,accept,reject,prover-ok,prover-neg unwind=24 budget=200
-func VerifC38Small() {
-	d := vr.Choice("d", 8)
-	sw := uint64(vr.U8("signedWeight"))
-	vr.Assume(sw>>uint(d) == 1)
-	lnP := uint64(vr.U16("lnProvenWeight"))
-	target := uint64(vr.U8("strengthTarget"))
+//	this file         the REAL code, math/big included (no stubs), on small operands
+//	zz_verif_c38big   full-width operands with math/big replaced by its
+//	                  exact-integer contract
+//	zz_verif_c38coin  rejection sampling (getNextCoin)
+
+// VerifC38SmallSymbolic: real verifyWeights (real math/big) with symbolic
+// lnProvenWeight < 2^18, strengthTarget <= 512, numOfReveals < 2^16 and every
+// signedWeight in [0, 5) (thorough: [0, 64)): nil <=> n <= MaxReveals, sw != 0
+// and the documented inequality.
+//
+//verif:harness prop=C38 reach=done,accept,reject,zero unwind=24 budget=280 thorough.budget=2400
+func VerifC38SmallSymbolic() {
+	sw := uint64(vr.Choice("signedWeight", vr.Param(5, 64)))
+	lnP := uint64(vr.U32("lnProvenWeight"))
+	vr.Assume(lnP < 1<<18)
+	target := uint64(vr.U16("strengthTarget"))
+	vr.Assume(target <= 512)
 	n := uint64(vr.U16("numReveals"))
 
 	err := verifyWeights(sw, lnP, n, target)
-	want := n <= MaxReveals && verifC38Ineq(sw, lnP, n, target, d)
+	if sw == 0 {
+		vr.Assert("c38.small.zero-weight", err != nil)
+		vr.Reach("zero")
+		vr.Reach("done")
+		return
+	}
+	e := verifC38SubExpr(sw, bits.Len64(sw)-1)
+	want := n <= MaxReveals && verifC38Lhs(e, n).Ge(verifC38Rhs(e, lnP, n, target))
 	vr.Assert("c38.small.verifyWeights-iff-inequality", (err == nil) == want)
 	if err == nil {
 		vr.Reach("accept")
 	} else {
 		vr.Reach("reject")
 	}
+	vr.Reach("done")
+}
 
-	nr, perr := numReveals(sw, lnP, target)
-	if perr == nil {
-		vr.Reach("prover-ok")
-		vr.Assert("c38.small.prover-count-in-range", nr >= 1 && nr <= MaxReveals)
-		vr.Assert("c38.small.prover-satisfies-verifier", verifyWeights(sw, lnP, nr, target) == nil)
-		vr.Assert("c38.small.prover-satisfies-inequality", verifC38Ineq(sw, lnP, nr, target, d))
-	} else if perr == ErrNegativeNumOfRevealsEquation {
-		vr.Reach("prover-neg")
+// VerifC38SmallGrid: the real numReveals and verifyWeights (real math/big,
+// real division) on a grid of concrete arguments: every signedWeight in
+// [1, 48], lnProvenWeight around the zero of the denominator and at the ends,
+// four strength targets. Checks, against the exact-integer expressions: the
+// error cases of numReveals, result = floor(num/den) + 1, the result satisfies
+// verifyWeights, and result - 1 is accepted by verifyWeights exactly when the
+// inequality holds for it (the verifier rejects a smaller count that violates it).
+//
+//verif:harness prop=C38 reach=done,ok,neg,toomany,smaller-rejected unwind=8 budget=280 steps=60000000
+func VerifC38SmallGrid() {
+	for sw := uint64(1); sw <= 48; sw++ {
+		d := bits.Len64(sw) - 1
+		e := verifC38SubExpr(sw, d)
+		w := uint64(d) * (ln2IntApproximation - 1)
+		// x/y < 3*2^16*3/13 < 45372: the denominator changes sign for P in (w, w+45372)
+		for _, lnP := range []uint64{0, 1, w / 2, w, w + 1, w + 20000, w + 45000, w + 45372, 2907270} {
+			den := verifC38Den(e, lnP)
+			for _, target := range []uint64{0, 1, 256, 65535} {
+				num := verifC38Num(e, target)
+				nr, err := numReveals(sw, lnP, target)
+				if den.Le(vr.ZU(0)) {
+					vr.Assert("c38.grid.negative-denominator", err == ErrNegativeNumOfRevealsEquation && nr == 0)
+					vr.Reach("neg")
+					continue
+				}
+				q := num.Div(den)
+				if q.Ge(vr.ZU(MaxReveals)) {
+					vr.Assert("c38.grid.toomany", err == ErrTooManyReveals && nr == 0)
+					vr.Reach("toomany")
+					continue
+				}
+				vr.Assert("c38.grid.result", err == nil && vr.ZU(nr).Eq(q.Add(vr.ZU(1))))
+				vr.Assert("c38.grid.prover-satisfies-verifier", verifyWeights(sw, lnP, nr, target) == nil)
+				vr.Assert("c38.grid.prover-satisfies-inequality", verifC38Lhs(e, nr).Ge(verifC38Rhs(e, lnP, nr, target)))
+				less := verifC38Lhs(e, nr-1).Ge(verifC38Rhs(e, lnP, nr-1, target))
+				vr.Assert("c38.grid.smaller-count", (verifyWeights(sw, lnP, nr-1, target) == nil) == less)
+				if !less {
+					vr.Reach("smaller-rejected")
+				}
+				vr.Reach("ok")
+			}
+		}
+	}
+	vr.Reach("done")
+}
+
+// VerifC38TruncationWitness: why VerifC38ProverAgrees bounds strengthTarget and
+// VerifC38ProverNoTruncation assumes that the quotient fits. numReveals takes
+// `.Uint64()` of floor(num/den) without checking that it fits in 64 bits; for
+// signedWeight = 3, lnProvenWeight = 71923 (den = 2651) and
+// strengthTarget = 29094685646174243 the exact quotient is 2^64 + 47, numReveals
+// returns (48, nil), and verifyWeights refuses 48 reveals. With the consensus
+// strengthTarget (256) this needs 0 < den < y/2^40, which no sampled
+// signedWeight admits. The harness asserts the arithmetic facts only (it keeps
+// passing if numReveals is hardened) and records the disagreement as a reach tag.
+// Real math/big, concrete values.
+//
+//verif:harness prop=C38 reach=done unwind=8
+func VerifC38TruncationWitness() {
+	const sw, lnP, target = uint64(3), uint64(71923), uint64(29094685646174243)
+	e := verifC38SubExpr(sw, 1)
+	num, den := verifC38Num(e, target), verifC38Den(e, lnP)
+	vr.Assert("c38.truncation.denominator", den.Eq(vr.ZU(2651)))
+	vr.Assert("c38.truncation.quotient", num.Div(den).Eq(vr.ZU(1).Shl(64).Add(vr.ZU(47))))
+	vr.Assert("c38.truncation.48-reveals-do-not-satisfy-the-inequality", verifC38Lhs(e, 48).Lt(verifC38Rhs(e, lnP, 48, target)))
+	nr, err := numReveals(sw, lnP, target)
+	if err == nil {
+		vr.Assert("c38.truncation.low-word-plus-one", nr == 48)
+		if verifyWeights(sw, lnP, nr, target) != nil {
+			vr.Reach("prover-verifier-disagree-outside-domain")
+		}
 	}
 	vr.Reach("done")
 }
